@@ -114,7 +114,7 @@ class Inliner:
     """executes real functions / methods of the indexed modules symbolically; usable stand-alone (outcomes()) and as call
     models inside another engine (call models raise Fork with one alternative per outcome of the callee)"""
 
-    def __init__(self, ctx, cx: ClassIndex, calls=None, consts=None, types=None, raises_ok=None):
+    def __init__(self, ctx, cx: ClassIndex, calls=None, consts=None, types=None, raises_ok=None, shared=()):
         self.ctx = ctx
         self.cx = cx
         self.extra_calls = dict(calls or {})
@@ -123,6 +123,8 @@ class Inliner:
         self.seq = 0
         self.depth = 0
         self.raises_ok = raises_ok  # None: exceptions are outcomes handed to the caller
+        self.shared = list(shared)  # ghost globals of the caller visible to (and written back from) inlined bodies
+        self.engine_cls = pyvc.Engine
 
     # ---- call models shared by every inlined body
     def call_models(self, owner: Optional[str], self_rec: Optional[SRecord]):
@@ -170,7 +172,7 @@ class Inliner:
             consts=self.consts(),
             raises={'*': True},
         )
-        eng = pyvc.Engine(self.ctx, c)
+        eng = self.engine_cls(self.ctx, c)
         outs = []
         eng.at_return = lambda st, res: outs.append(('value', res, st))
         eng.at_raise = lambda st, exc: outs.append(('raise', exc, st))
@@ -202,15 +204,23 @@ class Inliner:
             raise Undecided('inlined call of %s: no value for parameter(s) %s' % (fn.name, missing))
         return env
 
-    def _fork(self, outs, st, node, pick=lambda kind, payload, s: payload):
+    def _writeback(self, caller, sub, with_self):
+        if with_self and isinstance(sub.env.get('self'), SRecord) and isinstance(caller.env.get('self'), SRecord):
+            caller.env['self'].fields.update(sub.env['self'].fields)
+        for n in self.shared:
+            if n in sub.env:
+                caller.env[n] = sub.env[n]
+
+    def _fork(self, outs, st, node, pick=lambda kind, payload, s: payload, with_self=False):
         base = len(st.pc)
         alts = []
         for i, (kind, payload, s) in enumerate(outs):
             extra = list(s.pc[base:])
             cond = z3.And(*extra) if extra else None
-            alts.append(('inl%d' % i, cond, kind, pick(kind, payload, s), None))
+            alts.append(('inl%d' % i, cond, kind, pick(kind, payload, s), (lambda sub: lambda caller: self._writeback(caller, sub, with_self))(s)))
         if len(alts) == 1 and alts[0][1] is None:
             kind, payload = alts[0][2], alts[0][3]
+            self._writeback(st, outs[0][2], with_self)
             if kind == 'raise':
                 raise pyvc.PyRaise(payload)
             return payload
@@ -222,9 +232,12 @@ class Inliner:
         static = self.cx.is_static(fn)
         env = self.bind(fn, args, kw, skip_self=not static)
         if not static:
-            env['self'] = self_rec
+            env['self'] = self_rec.clone() if isinstance(self_rec, SRecord) else self_rec  # effects reach the caller through _writeback only
+        for n in self.shared:
+            if n in st.env:
+                env[n] = st.env[n]
         outs = self.outcomes(path, '%s.%s' % (owner, meth), fn, env, list(st.pc), '%s.%s#%d' % (owner, meth, self.seq), owner=owner, self_rec=self_rec)
-        return self._fork(outs, st, node)
+        return self._fork(outs, st, node, with_self=(not static and self_rec is st.env.get('self')))
 
     def call_function(self, fname, args, kw, st, node):
         path, fn = self.cx.funcs[fname]
